@@ -143,7 +143,7 @@ def translate(repo):
                 if rv in OWNED: continue
                 ps = paths(blk, rv)
                 words = sorted(set(w + (() if t else ('Ret',)) for w, t in ps))
-                rows.append((name + ('[%s]' % rv if rv else ''), os.path.relpath(p, repo), line, PROTOCOL.get(name, 'closed'), words))
+                rows.append((name + ('@%s' % rv if rv else ''), os.path.relpath(p, repo), line, PROTOCOL.get(name, 'closed'), words))
     if not rows: raise TranslationError('no function calling optimizationPreProcess was found')
     # the implementation of the pair must still have the known shape (Pre does nothing when already prepared)
     acov = strip_comments(open(os.path.join(repo, 'src/Covariances/ACov.cpp')).read())
